@@ -30,6 +30,8 @@ def cases(tier, seed):
     cs.append({'scen': 'tt_cat', 's': {'Ns': [[2, 3], [2, 1]], 'Rs': [[1, 2, 1], [1, 3, 1]], 'dim': 1, 'dtype': 'float32'}})
     cs.append({'scen': 'tt_cat', 's': {'Ns': [[2, 3], [2, 1]], 'Rs': [[1, 2, 1], [1, 3, 1]], 'dim': 1, 'dtype': 'float64', 'aslist': True}})
     cs.append({'scen': 'tt_cat', 's': {'Ns': [[2, 3]], 'Rs': [[1, 2, 1]], 'dim': 1, 'dtype': 'float64'}})
+    cs.append({'scen': 'tt_cat', 's': {'Ns': [[2, 3], [2, 1]], 'Rs': [[1, 2, 1], [1, 3, 1]], 'dim': -1, 'dtype': 'float64'}})
+    cs.append({'scen': 'tt_cat', 's': {'Ns': [[2, 3, 2], [1, 3, 2]], 'Rs': [[1, 2, 2, 1], [1, 1, 2, 1]], 'dim': -3, 'dtype': 'float64'}})
     # ---- pad (tensors): widths from {0,1,2} on every subset of trailing modes, symbolic fill value
     for N, R in [([3], [1, 1]), ([2, 3], [1, 1, 1]), ([2, 3], [1, 2, 1]), ([2, 1, 2], [1, 2, 2, 1]), ([1, 2], [1, 3, 1])]:
         d = len(N)
